@@ -539,7 +539,7 @@ def witness_docs():
     add("nested-ok", El((None, "R"), text="see ", kids=[
         nl(text="cf. ", kids=[El((None, "c"))], tail=" for details"),
         El((None, "nm"), text="x", kids=[nl(), El((None, "na"), attrs=[((None, "k"), "1")], kids=[El((None, "b"), tail="w")])], tail="z"),
-        El((None, "ns"), text="t", kids=[a(tail="v")], tail="u")]), ["mixed-any-n-0", "mixed-any-n-1"])
+        El((None, "ns"), text="t", kids=[a(tail="v")])]), ["mixed-any-n-0", "mixed-any-n-1"])
     add("default-redecl", El((None, "R"), [(None, "urn:a")],
                              kids=[El((None, "a"), [(None, "urn:b")], kids=[El((None, "b"), [(None, "")],
                                    kids=[El((None, "c"), [(None, "urn:a")])])])]), ["list-any-a-0", "single-other-a-1"])
@@ -672,7 +672,7 @@ def process_batch(ck, docs, st):
         index.append((di, rr["runs"]))
         n_runs += len(rr["runs"])
 
-    codes = coq_judge("c11", case_terms)
+    codes = coq_judge(f"c11_{os.getpid()}", case_terms)   # concurrent runs of this check must not share case files
     stats["runs"] += n_runs
     for ci, (di, runs) in enumerate(index):
         d = docs[di]
